@@ -56,9 +56,10 @@ R23n == D("AtropBond", <<1, NoAtom, 2, 3, 4, NoAtom>>, NoPar)
 AMenu == {T1p, T1m, T1n, T2p, S1, S1n}
 BMenu == {P23, R23p, R23m, P12, P23n, R23n}
 AChangeCombos == { <<T1p, NoD, NoD>>, <<NoD, T1m, NoD>>, <<NoD, NoD, T1p>>, <<T1p, NoD, T1m>>,
-                   <<T1p, S1, T1m>>, <<T1p, NoD, T2p>>, <<NoD, NoD, NoD>>, <<T1n, S1n, NoD>> }
+                   <<T1p, S1, T1m>>, <<T1p, NoD, T2p>>, <<NoD, NoD, NoD>>, <<T1n, S1n, NoD>>,
+                   <<T1p, T1p, NoD>>, <<T1m, T1m, T1p>> }
 BChangeCombos == { <<P23, NoD, NoD>>, <<NoD, NoD, R23p>>, <<P23, R23m, P23x>>,
-                   <<P23, NoD, P12>>, <<NoD, NoD, NoD>>, <<NoD, P23n, R23n>> }
+                   <<P23, NoD, P12>>, <<NoD, NoD, NoD>>, <<NoD, P23n, R23n>>, <<R23p, R23p, NoD>> }
 
 Op(n) == [BaseOp EXCEPT !.name = n]
 
@@ -171,7 +172,7 @@ Chain == [EmptyGraph(Kind) EXCEPT
                    @@ {3,4} :> [role |-> "none", at |-> Emp])]
 StarT  == [Star EXCEPT !.ast = (1 :> T1p)]
 ChainP == [Chain EXCEPT !.bst = ({2,3} :> P23)]
-StarC  == [Star EXCEPT !.ach = (1 :> ("broken" :> T1p @@ "formed" :> T1m)),
+StarC  == [Star EXCEPT !.ach = (1 :> ("broken" :> T1p @@ "fleeting" :> T1p @@ "formed" :> T1m)),
                        !.bd[{1,4}].role = "formed"]
 ChainC == [Chain EXCEPT !.bch = ({2,3} :> ("broken" :> P23 @@ "fleeting" :> R23p)),
                         !.bd[{1,2}].role = "broken", !.bst = ({3,4} :> D("PlanarBond", <<2, NoAtom, 3, 4, NoAtom, NoAtom>>, 0))]
